@@ -6,6 +6,8 @@ Probe technique (as GeodstProbe in C09_cccc.py): the real *Stream.readWrite / _r
 is named in each lemma (record bodies by a trace; the record object and the flux array by probes that check the
 (group, plane, band) of every record against the file order).
 """
+import struct
+
 import numpy as np
 
 from spec import *
@@ -202,6 +204,10 @@ def rtflux_file_round_trip(ni: int, nj: int, nk: int, ng: int, nb: int, effk: fl
     st = memstream()
     rtflux_stream(cls, "wb", st, data).readWrite()
     assert st.nwrites() == 3 * (2 + ng * nk * nb), "2 header records + one record per (group, plane, band), each framed"
+    for r in range(ng * nk * nb):
+        jl, ju = cccc.getBlockBandwidth(r % nb + 1, nj, nb)
+        (count,) = struct.unpack("i", st.written(3 * (2 + r)))
+        assert count == 8 * ni * (ju - jl + 1), "each flux record holds NINTI x band-width double-precision values"
     st.seek(0)
     back = RtfluxData()
     rtflux_stream(cls, "rb", st, back).readWrite()
@@ -216,3 +222,100 @@ def rtflux_file_round_trip(ni: int, nj: int, nk: int, ng: int, nb: int, effk: fl
                     assert eq(back.groupFluxes[i, j, k, g], vals[i][j][k][g]), "flux value read back"
     # the container that was written is unchanged by writing
     assert eq(data.groupFluxes[ni - 1, nj - 1, nk - 1, ng - 1], vals[ni - 1][nj - 1][nk - 1][ng - 1])
+
+
+# ----------------------------------------------------------------------------- PWDINT and RZFLUX: whole files
+pwdint = repo("armi.nuclearDataIO.cccc.pwdint")
+PwdintStream = repo("armi.nuclearDataIO.cccc.pwdint:PwdintStream")
+PwdintData = repo("armi.nuclearDataIO.cccc.pwdint:PwdintData")
+rzflux = repo("armi.nuclearDataIO.cccc.rzflux")
+RzfluxStream = repo("armi.nuclearDataIO.cccc.rzflux:RzfluxStream")
+RzfluxData = repo("armi.nuclearDataIO.cccc.rzflux:RzfluxData")
+
+
+def stream(cls, name, mode, st, data):
+    return new(cls, _fileName=name, _fileMode=mode, _stream=st, _data=data, _metadata=data.metadata)
+
+
+@lemma(gen={"ni": (1, 2), "nj": (1, 3), "nk": (1, 2), "nb": (1, 3), "t": F32, "power": F32, "vol": F32, "ncy": (0, 9),
+            "p0": F32, "p1": F32, "p2": F32, "p3": F32, "p4": F32, "p5": F32, "p6": F32, "p7": F32, "p8": F32, "p9": F32, "p10": F32, "p11": F32})
+def pwdint_file_round_trip(ni: int, nj: int, nk: int, nb: int, t: float, power: float, vol: float, ncy: int,
+                           p0: float, p1: float, p2: float, p3: float, p4: float, p5: float, p6: float, p7: float,
+                           p8: float, p9: float, p10: float, p11: float):
+    """a whole PWDINT file (identification, specifications, NINTK x NBLOK power-density records) through the real
+    PwdintStream.readWrite and the real binary records: header and power density (shape, values) read back; the number
+    of records is 2 + NINTK x NBLOK.  NINTI 1..2, NINTJ 1..3, NINTK 1..2, NBLOK 1..3 enumerated (32 of 36 shapes; includes
+    NBLOK > NINTJ with empty bands); values symbolic."""
+    ni, nj, nk, nb = choose(ni, 1, 2), choose(nj, 1, 3), choose(nk, 1, 2), choose(nb, 1, 3)
+    assume(0 <= ncy and ncy <= 1000)
+    # blocking by the CCCC formula leaves no band that starts more than one past the last mesh line (JL <= NINTJ + 1);
+    # the excluded headers (here NINTJ=1, NBLOK=3) are the finding in contracts/pending/C09_formats_finding.py
+    assume((nb - 1) * ((nj - 1) // nb + 1) <= nj)
+    p = [p0, p1, p2, p3, p4, p5, p6, p7, p8, p9, p10, p11]
+    data = PwdintData()
+    header = {"TIME": t, "POWER": power, "VOL": vol, "NINTI": ni, "NINTJ": nj, "NINTK": nk, "NCY": ncy, "NBLOK": nb}
+    ident = {"hname": "PWDINT", "huse": "ARMI", "huse2": "", "version": 1, "mult": 1}
+    for key in header:
+        data.metadata[key] = header[key]
+    for key in ident:
+        data.metadata[key] = ident[key]
+    vals = [[[p[(i * nj + j) * nk + k] for k in range(nk)] for j in range(nj)] for i in range(ni)]
+    data.powerDensity = np.array(vals)
+    st = memstream()
+    stream(PwdintStream, "PWDINT", "wb", st, data).readWrite()
+    assert st.nwrites() == 3 * (2 + nk * nb)
+    for k in range(nk):
+        for b in range(nb):
+            jl, ju = cccc.getBlockBandwidth(b + 1, nj, nb)
+            (count,) = struct.unpack("i", st.written(3 * (2 + k * nb + b)))
+            assert count == 4 * ni * (ju - jl + 1), "record (plane, band) holds NINTI x band-width single-precision values"
+    st.seek(0)
+    back = PwdintData()
+    stream(PwdintStream, "PWDINT", "rb", st, back).readWrite()
+    for key in header:
+        assert eq(back.metadata[key], header[key]), "header entry read back"
+    for key in ident:
+        assert back.metadata[key] == ident[key], "identification read back"
+    assert back.powerDensity.shape == (ni, nj, nk)
+    for i in range(ni):
+        for j in range(nj):
+            for k in range(nk):
+                assert eq(back.powerDensity[i, j, k], vals[i][j][k]), "power density read back"
+
+
+@lemma(gen={"nz": (1, 3), "ng": (1, 2), "nb": (1, 2), "x": F32, "itps": (0, 3),
+            "f0": F32, "f1": F32, "f2": F32, "f3": F32, "f4": F32, "f5": F32})
+def rzflux_file_round_trip(nz: int, ng: int, nb: int, x: float, itps: int, f0: float, f1: float, f2: float, f3: float, f4: float, f5: float):
+    """a whole RZFLUX file (identification, specifications, NBLOK zone-band records) through the real
+    RzfluxStream.readWrite: the 20 header entries and the group x zone flux matrix are read back.  NZONE 1..3,
+    NGROUP 1..2, NBLOK 1..2 enumerated; values symbolic."""
+    nz, ng, nb = choose(nz, 1, 3), choose(ng, 1, 2), choose(nb, 1, 2)
+    assume(0 <= itps and itps <= 3)
+    f = [f0, f1, f2, f3, f4, f5]
+    data = RzfluxData()
+    data.metadata["label"] = "RZFLUX"
+    header = {}
+    for key in rzflux.FILE_SPEC_1D_KEYS:
+        header[key] = x
+    header["NBLOK"], header["ITPS"], header["NZONE"], header["NGROUP"], header["NCY"] = nb, itps, nz, ng, 2
+    for key in header:
+        data.metadata[key] = header[key]
+    vals = [[f[g * nz + z] for z in range(nz)] for g in range(ng)]
+    data.groupFluxes = np.array(vals)
+    st = memstream()
+    stream(RzfluxStream, "RZFLUX", "wb", st, data).readWrite()
+    assert st.nwrites() == 3 * (2 + nb)
+    for b in range(nb):
+        jl, ju = cccc.getBlockBandwidth(b + 1, nz, nb)
+        (count,) = struct.unpack("i", st.written(3 * (2 + b)))
+        assert count == 4 * ng * (ju - jl + 1), "record of band b holds NGROUP x band-width single-precision values"
+    st.seek(0)
+    back = RzfluxData()
+    stream(RzfluxStream, "RZFLUX", "rb", st, back).readWrite()
+    assert back.metadata["label"] == "RZFLUX"
+    for key in rzflux.FILE_SPEC_1D_KEYS:
+        assert eq(back.metadata[key], header[key]), "header entry read back"
+    assert back.groupFluxes.shape == (ng, nz)
+    for g in range(ng):
+        for z in range(nz):
+            assert eq(back.groupFluxes[g, z], vals[g][z]), "zone flux read back"
